@@ -4,6 +4,7 @@ use solang_parser::pt::{self, Loc};
 use solang_parser::{self, pt::SourceUnit};
 
 use crate::analyzer::ast::{self, Target};
+use crate::analyzer::utils;
 
 pub fn memory_to_calldata_optimization(source_unit: SourceUnit) -> HashSet<Loc> {
     //Create a new hashset that stores the location of each optimization target identified
@@ -53,24 +54,26 @@ pub fn memory_to_calldata_optimization(source_unit: SourceUnit) -> HashSet<Loc> 
                 let expression = assign_node.expression().unwrap();
 
                 if let pt::Expression::Assign(_, box_expression, _) = expression {
-                    //check if the left hand side is a variable
-                    match *box_expression {
-                        //if assignment is to variable
-                        pt::Expression::Variable(identifier) => {
-                            memory_args.remove(&identifier.name);
-                        }
-
-                        //if assignment is array subscript
-                        pt::Expression::ArraySubscript(_, arr_subscript_box_expression, _) => {
-                            if let pt::Expression::Variable(identifier) =
-                                *arr_subscript_box_expression
-                            {
-                                //remove the variable name from the memory_args hashmap
+                    //check if the left hand side (or a component of it, if it is a tuple) is a variable
+                    for target in utils::get_assignment_targets(*box_expression) {
+                        match target {
+                            //if assignment is to variable
+                            pt::Expression::Variable(identifier) => {
                                 memory_args.remove(&identifier.name);
                             }
-                        }
 
-                        _ => {}
+                            //if assignment is array subscript
+                            pt::Expression::ArraySubscript(_, arr_subscript_box_expression, _) => {
+                                if let pt::Expression::Variable(identifier) =
+                                    *arr_subscript_box_expression
+                                {
+                                    //remove the variable name from the memory_args hashmap
+                                    memory_args.remove(&identifier.name);
+                                }
+                            }
+
+                            _ => {}
+                        }
                     }
                 }
             }
